@@ -383,10 +383,10 @@ def run(ctx):
     rng = ctx.rng
     for _ in range(ctx.scale(5500, 90000)):
         c = SV[rng.integers(4)]
-        m = 1 if rng.random() < 0.6 else int(rng.integers(2, 5))
+        m = 1 if rng.random() < 0.6 else int(rng.integers(2, 8))
         drive(RUNNERS, ctx, 'arith', dict(cls=c, op=['add', 'sub', 'neg'][rng.integers(3)], A=[vec6(rng) for _ in range(m)], B=[vec6(rng) for _ in range(m)]))
         if rng.random() < 0.15:
-            m2 = int(rng.integers(2, 5))
+            m2 = int(rng.integers(2, 8))
             drive(RUNNERS, ctx, 'arith', dict(cls=c, op=['iadd_shared', 'isub_shared'][rng.integers(2)], A=[vec6(rng) for _ in range(m2)], B=[vec6(rng) for _ in range(m2)],
                                               **({'form': 'matrix'} if rng.random() < 0.5 else {})))
         if rng.random() < 0.2:
